@@ -13,8 +13,10 @@
 #include "refcal.h"
 #include "dt-io.h"
 
-/* libdutio's error() wants it */
+/* libdutio's error() wants it (a tool source included into the explorer brings its own) */
+#if !defined C03_NO_PROG
 const char *prog = "verif";
+#endif
 
 enum { C_YMD, C_YWD, C_YD, C_YMCW, C_DAISY, C_LDN, C_JDN, C_MDN, C_BIZDA, NCAL };
 static const char *const cal_name[NCAL] = {"ymd", "ywd", "yd", "ymcw", "daisy", "ldn", "jdn", "mdn", "bizda"};
@@ -220,6 +222,17 @@ dadd_cmd(char *cmd, size_t csz, int c, const char *text, const char *durs, const
 }
 
 #if defined VERIF_EXPLORE_H
+/* ex_expired() looks at the clock every 4096th call only; loops with few, long
+ * iterations (year slices, binding runs) ask the clock directly */
+static inline int
+ex_expired_now(void)
+{
+	if (!ex.expired && ex.deadline > 0 && ex_now() > ex.deadline) {
+		ex.expired = 1;
+	}
+	return ex.expired;
+}
+
 /* fast path for classes with millions of failing cases: when the class exists
  * already and ORD is no new minimum only count and widen the range (exactly
  * what ex_viol() would do), so that the caller need not format the example */
